@@ -41,6 +41,13 @@ type RunCtx struct {
 	Tier       string
 	Known      map[string]bool // signatures of known findings: scenarios may steer around them
 	KnownHit   map[string]int
+
+	// UnorderedDigest: the order of steps depends on an unseedable map order
+	// inside a dependency (DESIGN 2.8); the digest then covers the multiset of
+	// steps. DigestUnstable: even the multiset may differ (a fault aborts the
+	// walk at an order-dependent point); the run is left out of the self-check.
+	UnorderedDigest bool
+	DigestUnstable  bool
 }
 
 func (rc *RunCtx) Failf(rule, class, format string, a ...interface{}) {
@@ -186,7 +193,13 @@ func execRun(t *testing.T, sc *Scenario, tape *simrt.Tape, seed, run uint64, tie
 			}
 		}
 		res.SchedFP = strconv.FormatUint(rc.Sim.TraceDigest(), 16)
+		if rc.UnorderedDigest {
+			res.SchedFP = "u" + strconv.FormatUint(rc.Sim.TraceMultiset(), 16)
+		}
 		res.Digest = strconv.FormatUint(fnv(append([]string{res.SchedFP}, rc.Log...)...), 16)
+		if rc.DigestUnstable {
+			res.Digest = "unstable"
+		}
 		for h := range rc.States {
 			res.States = append(res.States, h)
 		}
